@@ -46,6 +46,9 @@ var s6Leaves = []tLeaf{
 	{Name: "s5", Base: "string", Levels: []tLevel{{Pats: []abs.Pat{{Re: "[a-z]*"}, {Re: ".*b.*"}}}}},
 	{Name: "s6", Base: "string", Levels: []tLevel{{Pats: []abs.Pat{{Re: "[a-z]+"}}}, {Pats: []abs.Pat{{Re: "a.*", Inv: true}}}}},
 	{Name: "s7", Base: "string", Levels: []tLevel{{Length: "1..4", Pats: []abs.Pat{{Re: "[0-9a]+"}}}}},
+	{Name: "s8", Base: "string", Levels: []tLevel{{Pats: []abs.Pat{{Re: "ab|cd|xy"}}}}},
+	{Name: "s9", Base: "string", Levels: []tLevel{{Pats: []abs.Pat{{Re: "tmp|lost", Inv: true}}}}},
+	{Name: "ls2", Base: "string", List: true, Levels: []tLevel{{Pats: []abs.Pat{{Re: "[a-z]+|[0-9]+"}}}}},
 	{Name: "en", Base: "enumeration", Body: "enum zeta { value 0; } enum one; enum alpha { value 5; }"},
 	{Name: "bt", Base: "bits", Body: "bit b0 { position 0; } bit b1; bit b5 { position 5; }"},
 	{Name: "idr", Base: "identityref", Body: "base ibase;"},
